@@ -28,6 +28,7 @@ func runC06(r *engine.Run) {
 	r.Rule("RET-pair", "the two results of every lookup agree: each return of a Get method is the pair of the next layer's Get, (Clone() of an entry's data, true) or (nil, false)")
 	r.Rule("DOM-found", "the value returned by a lookup in a cache map (lru Get/Peek) is type-asserted only on paths where the lookup's found flag tested true (a miss is a nil interface; asserting it panics)")
 	r.Rule("FRESH-write", "in TransactionCache.Set, BlockCache.Set and BlockCache.setValue every entry stored into the pending map carries in its data field the result of a Clone() call (provenance dataflow over the local entry), never the previous entry's object refreshed in place")
+	r.Rule("DOM-txreset", "Commit hands the pending writes to the block cache and then empties the transaction's pending map: every return of TransactionCache.Commit is dominated by a store of a new map into the field (or clear / delete of every iterated key) that comes after the hand-over loop. Entries left behind keep answering as own uncommitted writes and are pushed again by the next Commit")
 	r.Rule("DOM-commitall", "inside StateCache.commit's loop over the block's pending map, the next iteration is not reachable without adding the entry to the key's versions map: no write or tombstone of the block is skipped")
 	r.NotDec = append(r.NotDec,
 		"hit ratio after LRU eviction (capacity arithmetic)", "equality with the block-tree oracle for every history")
@@ -43,6 +44,7 @@ func runC06(r *engine.Run) {
 	domFound(r, "DOM-found")
 	freshWrite(r, "FRESH-write")
 	domCommitAll(r, "DOM-commitall")
+	domTxReset(r, "DOM-txreset")
 	cloneBoundary(r, "C06")
 	if commit := r.Fn("ORDER-publish", pkgSC, "StateCache", "commit"); commit != nil {
 		orderPublish(r, commit)
